@@ -4,6 +4,8 @@ import EaselModel.Containers.Heap
 import EaselModel.Containers.RedBlack
 import EaselModel.Containers.RedBlackPtr
 import EaselModel.Containers.KeyhashApi
+import EaselModel.Containers.KeyhashFixed
+import EaselModel.Containers.KeyhashVariant
 import EaselModel.Containers.Stack
 import EaselModel.Containers.StackThreads
 import EaselModel.Containers.Quicksort
@@ -157,14 +159,18 @@ def step (s : S) (line : String) : S × String :=
   | "store" :: _ =>
     match argHex? ws "key" with
     | some k =>
-      match (if (argNat? ws "str").getD 0 == 1 then Keyhash.storeStrC Keyhash.jenkinsStr H s.kh k else Keyhash.store H s.kh k) with
+      match (if Keyhash.repaired then
+              (if (argNat? ws "str").getD 0 == 1 then Keyhash.storeStrCF Keyhash.jenkinsStr H s.kh k else Keyhash.storeF H s.kh k)
+            else if (argNat? ws "str").getD 0 == 1 then Keyhash.storeStrC Keyhash.jenkinsStr H s.kh k else Keyhash.store H s.kh k) with
       | some (kh, st, idx) => ({ s with kh := kh }, (if st == .edup then "edup " else "ok ") ++ toString idx)
       | none => fault s
     | none => (s, "bad-op")
   | "lookup" :: _ =>
     match argHex? ws "key" with
     | some k =>
-      match (if (argNat? ws "str").getD 0 == 1 then Keyhash.lookupStrC Keyhash.jenkinsStr s.kh k else Keyhash.lookup H s.kh k) with
+      match (if Keyhash.repaired then
+              (if (argNat? ws "str").getD 0 == 1 then Keyhash.lookupStrCF Keyhash.jenkinsStr s.kh k else Keyhash.lookupF H s.kh k)
+            else if (argNat? ws "str").getD 0 == 1 then Keyhash.lookupStrC Keyhash.jenkinsStr s.kh k else Keyhash.lookup H s.kh k) with
       | some (st, idx) => (s, if st == .ok then s!"ok {idx}" else "enotfound -1")
       | none => fault s
     | none => (s, "bad-op")
